@@ -90,7 +90,7 @@ def run_unit(unit):
     tier, shard = unit[1], unit[2]
     docs = O.documents(tier)
     for label, text in docs[shard::NSHARD]:
-        d = O.load_or_none(text)
+        d = O.load_or_none(text, label)
         if d is None:
             R.add_outcome(res, "unparsed")
             continue
